@@ -72,6 +72,9 @@ def next_rule(rule, crate):
                 bad = "a success path moves the cursor (%s) before it reads the character it returns: the character after the consumed one is handed out" % kinds[writes[0]]
         if not n_succ:
             bad = "no success path found"
+        if not bad:
+            # .. and it consumed exactly that character (not two, not `len_utf16` bytes): the content of ANY is the consumed text
+            bad = prims.next_amount(crate, b, [[x for x in w if x[0] != "read"] for v, w in res if v not in ("None", False)])
         if bad:
             rule.violate(label, bad, loc)
         else:
